@@ -5,7 +5,7 @@
 //! (TypeId) with the staging the property demands.  The instances are chosen so that the
 //! conflicting pair is NOT adjacent in the schedule (a stager that only compares neighbours, or
 //! only the head of the stage's claim list, gets them wrong), for component views, optional
-//! views, entry views and resource views, plus conflict-free controls that must stay one stage.
+//! views, entry views and resource views.
 use super::Sealed as Schedule;
 use crate::{
     query::{filter, Result, Views},
@@ -50,19 +50,35 @@ type CutBeforeThird<T1, T2, T3> = (
     (&'static mut task::System<T1>, (&'static mut task::System<T2>, stage::Null)),
     ((&'static mut task::System<T3>, stage::Null), stages::Null),
 );
+/// {T1} | {T2, T3}
+type CutAfterFirst<T1, T2, T3> = (
+    (&'static mut task::System<T1>, stage::Null),
+    ((&'static mut task::System<T2>, (&'static mut task::System<T3>, stage::Null)), stages::Null),
+);
+/// {T1} | {T2} | {T3}
+type AllSeparate<T1, T2, T3> = (
+    (&'static mut task::System<T1>, stage::Null),
+    ((&'static mut task::System<T2>, stage::Null), ((&'static mut task::System<T3>, stage::Null), stages::Null)),
+);
 /// {T1, T2, T3}
 type OneStage<T1, T2, T3> = (
     (&'static mut task::System<T1>, (&'static mut task::System<T2>, (&'static mut task::System<T3>, stage::Null))),
     stages::Null,
 );
 
+// The property demands only that the conflicting pair (first and third task) does not share a
+// stage; every order-preserving staging with that cut is accepted ({1,2}|{3}, {1}|{2,3},
+// {1}|{2}|{3}), so a different but correct staging policy is not an alarm.  No property demands
+// parallelism, so nothing is asserted about conflict-free schedules.
 macro_rules! staging {
-    ($harness:ident, $res:ty, $t1:ident, $t2:ident, $t3:ident, $expected:ident, $msg:literal) => {
+    ($harness:ident, $res:ty, $t1:ident, $t2:ident, $t3:ident, CutBeforeThird, $msg:literal) => {
         #[kani::proof]
         fn $harness() {
             let got = TypeId::of::<<Three<$t1, $t2, $t3> as Schedule<'static, Reg, $res, _>>::Stages>();
-            let want = TypeId::of::<$expected<$t1, $t2, $t3>>();
-            assert!(got == want, $msg);
+            let ok = got == TypeId::of::<CutBeforeThird<$t1, $t2, $t3>>()
+                || got == TypeId::of::<CutAfterFirst<$t1, $t2, $t3>>()
+                || got == TypeId::of::<AllSeparate<$t1, $t2, $t3>>();
+            assert!(ok, $msg);
         }
     };
 }
@@ -81,8 +97,6 @@ staging!(stages_ref_other_mut, Resources!(), RefA1, MutB, MutA2, CutBeforeThird,
     "C08: a task writing A is not staged with an earlier, non-adjacent task reading A");
 staging!(stages_mut_other_ref, Resources!(), MutA1, RefB, RefA2, CutBeforeThird,
     "C08: a task reading A is not staged with an earlier, non-adjacent task writing A");
-staging!(stages_all_reads_one_stage, Resources!(), RefA1, RefB, RefA2, OneStage,
-    "C08 control: readers of the same component share a stage");
 
 // ---- optional views
 sys!(OptMutA, [Option<&'a mut A>], [], []);
@@ -110,5 +124,3 @@ staging!(stages_res_mut_other_ref, Resources!(X, Y), ResMutX1, ResMutY, ResRefX,
     "C08: a task reading resource X is not staged with an earlier, non-adjacent task writing X");
 staging!(stages_res_mut_other_mut, Resources!(X, Y), ResMutX1, ResMutY, ResMutX2, CutBeforeThird,
     "C08: a task writing resource X is not staged with an earlier, non-adjacent task writing X");
-staging!(stages_res_reads_one_stage, Resources!(X, Y), ResRefX, ResRefY, ResRefX2, OneStage,
-    "C08 control: readers of the same resource share a stage");
